@@ -605,7 +605,15 @@ def r4_10(ctx, rc):
     Qf = ctx.E.func('BuildDirs.is_removed_norm_case')
     memo = None
     scan = None
-    for conds, st in cond_paths(Qf.node.body):
+    rets = {r.value.id for r in ast.walk(Qf.node)
+            if isinstance(r, ast.Return) and isinstance(r.value, ast.Name)}
+    for conds, st0 in cond_paths(Qf.node.body):
+        # ``return V`` or ``result = V`` with the result variable returned
+        st = st0
+        if isinstance(st, ast.Assign) and len(st.targets) == 1 and \
+                isinstance(st.targets[0], ast.Name) and \
+                st.targets[0].id in rets:
+            st = ast.Return(value=st.value)
         if not isinstance(st, ast.Return) or st.value is None:
             continue
         if isinstance(st.value, ast.Constant) and st.value.value is True:
